@@ -6,7 +6,7 @@ From FlacUpdIo Require GenUpd Update Update_proofs Update_cond.
 From FlacCodec Require Ast Stream Spec Wf.
 From FlacWriters Require Import Params Params_proofs Finalize Writers Encoder_proofs C09_proofs Bytes_proofs Writers_proofs Cross_proofs.
 From FlacReaders Require Readers Spec Seek.
-From FlacE2E Require Bridge E2E Success ReadBridge ReadersE2E.
+From FlacE2E Require Bridge E2E Success ReadBridge ReadersE2E Transfer ByteE2E.
 From FlacE2EMeta Require Import MetaBridge FinishedBlocks.
 From FlacE2EUpd Require Import RealCodec CodecView UpdateE2E WrittenEdited WrittenEditedFronts WrittenEditedRead.
 Open Scope N_scope.
@@ -128,3 +128,37 @@ Theorem C10_written_edited_then_read : forall (u : list N -> bool),
 Proof. exact written_edited_then_read. Qed.
 
 Print Assumptions C10_written_edited_then_read.
+
+(* the same through the byte front-end and the byte reader: FlacByteWriter (either byte order, any chunking), any edits,
+   FlacByteReader model — exactly the bytes of the whole PCM frames written *)
+Theorem C10_byte_written_edited_then_read : forall (u : list N -> bool),
+  (forall s, Forall (fun b => b < 128) s -> u s = true) ->
+  forall o L md5, (forall l, length (md5 l) = 16%nat) -> (forall l, Forall (fun b => b < 256) (md5 l)) ->
+  forall p rate bps ch, rate < 2 ^ 20 -> 1 <= bps -> bps <= 32 -> 1 <= ch -> ch <= 8 ->
+  forall en wo total w (chunks : list (list N)) rp,
+  options_wf wo -> Forall plain (o_metadata wo) -> seektables (o_metadata wo) = 0%nat ->
+  byte_new p en [] wo rate bps ch total = Ok w ->
+  Forall byte_ok (concat chunks) ->
+  let nb := bytes_per_sample_of bps in
+  let samples := FlacE2E.ByteE2E.decode_bytes en (N.to_nat nb) (concat chunks) in
+  forallb (FlacCodec.Wf.fits bps) samples = true ->
+  let W := N.of_nat (length samples) / ch in
+  let written := firstn (N.to_nat nb * (N.to_nat ch * (length samples / N.to_nat ch))) (concat chunks) in
+  1 <= W -> N.of_nat (length samples) < 2 ^ 36 ->
+  match total with Some T => T = nb * ch * W | None => True end ->
+  exists f blocks,
+    byte_run (FlacE2E.E2E.encB o L rate bps) md5 p w chunks = Ok f /\
+    (forall edits fn rs,
+      Forall (typed_edit u) edits -> Forall (U.keeps_streaminfo FlacMeta.Blocks.block) edits ->
+      U.run_edits FlacMeta.Blocks.block psize_r ser_r uclass_r (read_blocks_r u) edits (f_stream f) = (fn, rs) ->
+      FlacCodec.Stream.dec_stream fn =
+        Some (FlacE2E.Bridge.conv_si (f_si f), map FlacCodec.Stream.interleave_frame blocks, FlacCodec.Stream.EndEof)) /\
+    let F := FlacE2E.ReadBridge.file_of_blocks blocks ch bps (Some (FlacCodec.Enc_proofs.blocks_samples blocks)) (FlacE2E.ReadersE2E.conv_endian en) rp in
+    RS.valid_file F /\ RS.pcm_bytes F = written /\
+    forall ops, RS.no_bseek ops -> Forall RS.bop_ok (snd (FlacReaders.Seek.byte_run F ops)) ->
+      let atr := map (RS.abs_b F) (snd (FlacReaders.Seek.byte_run F ops)) in
+      Forall (RS.cur_ok written) atr /\ RS.chained 0 atr (RS.bpos F (fst (FlacReaders.Seek.byte_run F ops))) /\
+      RS.exactly_once written atr.
+Proof. exact byte_written_edited_then_read. Qed.
+
+Print Assumptions C10_byte_written_edited_then_read.
